@@ -2,7 +2,7 @@ _BUF_NRF_INC = ['-I' + _os.path.join(_os.path.dirname(_os.path.abspath(__file__)
                 '-I$REPO/bluetoe/bindings/nordic/include']
 
 target('c18_ring', 'engines/comp/c18_ring.cpp', inc=_BUF_NRF_INC,
-       quick=dict(cases=300000, size=200), thorough=dict(cases=6000000, size=300))
+       quick=dict(cases=900000, size=200), thorough=dict(cases=6000000, size=300))
 prop('C18', ['c18_ring'], 'comp',
      rule='rapidcheck picks one of 33 instantiated rings (Size 3..600 x default layout / the real nRF encrypted layout from '
           'bluetoe/nrf.hpp) and a sequence of alloc_front/push_front/next_end/pop_end/more_than_one/reset calls (length grows with the '
